@@ -764,6 +764,14 @@ pub fn run(a: &Args, rep: &mut Reporter) {
             }
             let mut ctx = Ctx { primary, hostile: mode == "c10", cover: &mut cover, stats: &mut stats };
             let mut vs = verify_readback(&bytes, &scene, &run, &mut ctx);
+            if mode == "c12w" {
+                // the files of this mode exist for the bit-packing grid: values the reader gets wrong here are C12's
+                for v in vs.iter_mut() {
+                    if v.prop == "C01" {
+                        v.prop = "C12";
+                    }
+                }
+            }
             if mode == "c18" {
                 // everything the read-back oracle finds in this mode is about extension attributes
                 // disturbing (or being disturbed by) standard content
